@@ -75,6 +75,28 @@ func TestVerif_C14_FailedWrite(t *testing.T) {
 			ocs := c14Outcomes(st, o)
 			st = ocs[len(ocs)-1].next // deterministic: no config race in a sequential history
 		}
+		if rapid.IntRange(0, 4).Draw(rt, "configAsFirstRequestThenRemount") == 0 {
+			// the mount is configured by the very first request after the backend came up, and the backend is set up
+			// again later (restart): the configuration that was acknowledged must still be in force
+			pre := []*c14Op{{kind: "remount", maxV: -1, casReq: -1}, {kind: "config", maxV: -1, casReq: 1}}
+			st2 := c14State{}
+			for _, o := range pre {
+				ocs := c14Outcomes(st2, o)
+				st2 = ocs[len(ocs)-1].next
+			}
+			// replay the generated set-up on top of the new configuration to get the model state
+			var kept []*c14Op
+			for _, o := range c.setup {
+				if o.kind == "config" {
+					continue // keep the directed configuration in force
+				}
+				ocs := c14Outcomes(st2, o)
+				st2 = ocs[len(ocs)-1].next
+				kept = append(kept, o)
+			}
+			c.setup = append(append(pre, kept...), &c14Op{kind: "remount", maxV: -1, casReq: -1})
+			st = st2
+		}
 		// ---- the write under fault
 		tg := &c14Op{kind: "write", maxV: -1, casReq: -1, data: map[string]any{"k": "target", "t": c14GenValue(rt, "t")}}
 		if rapid.IntRange(0, 3).Draw(rt, "targetPatch") == 0 {
